@@ -12,6 +12,8 @@ open RdfModel RdfModel.RX RdfModel.C09
 #print axioms RdfModel.C09.flatPlan_ok
 #print axioms RdfModel.C09.write_denote
 #print axioms RdfModel.C09.write_uses_choice
+#print axioms RdfModel.C09.writeAuto_denote
+#print axioms RdfModel.C09.Witness.auto_used
 #print axioms RdfModel.C09.ws_propList
 #print axioms RdfModel.C09.ws_nodeList
 #print axioms RdfModel.C09.ws_resKids
